@@ -80,6 +80,7 @@ pub fn run_reader(file: &[u8], cuts: &[usize], opts: &[bool; 5], transform: png:
             return out + "too-large-for-harness";
         }
         let mut buf = vec![0u8; size];
+        let mut failed = false;
         for k in 0..40 {
             match reader.next_frame(&mut buf) {
                 Ok(oi) => {
@@ -91,13 +92,20 @@ pub fn run_reader(file: &[u8], cuts: &[usize], opts: &[bool; 5], transform: png:
                 }
                 Err(e) => {
                     out.push_str(&format!("f{}:err({}) ", k, err_class(&e)));
+                    // `Parameter` here is the regular end-of-image report
+                    failed = !matches!(e, png::DecodingError::Parameter(_));
                     break;
                 }
             }
         }
+        // what follows the first failure is C18's business (it must be an error), not compared here
+        if failed {
+            out.push_str("fin:skipped ");
+        } else {
         match reader.finish() {
             Ok(()) => out.push_str("fin:ok "),
             Err(e) => out.push_str(&format!("fin:err({}) ", err_class(&e))),
+        }
         }
         out.push_str(&format!("end[{}]", info_canon(reader.info())));
         out
@@ -292,6 +300,9 @@ pub fn replay(ctx: &mut Ctx, case: &J) {
         "reader" => {
             let (ra, rb) = (run_reader(&file, &a, &opts, png::Transformations::IDENTITY), run_reader(&file, &b, &opts, png::Transformations::IDENTITY));
             if ra != rb {
+                if std::env::var("VERIF_DEBUG").is_ok() {
+                    eprintln!("A: {}\nB: {}", ra, rb);
+                }
                 ctx.rep.violation("oracle", "reader/result-differs", &format!("`{}` vs `{}`", trunc(&ra), trunc(&rb)), case.clone());
             }
         }
